@@ -1,4 +1,76 @@
-From Coq Require Import List.
-Require Import V.Sched.Model.
-Theorem C01_placeholder : True. Proof. exact I. Qed.
-Print Assumptions C01_placeholder.
+(* C01 — Tasks start only after everything they consume from is finished.  Property theorems only.
+   "Reachable" = any state obtained from the initial state by any list of events (Start, Tick, Exit c,
+   PM c, Fin c) that the controller accepts, for any workflow W and any task-outcome oracle. *)
+From Coq Require Import List Bool Arith.
+Import ListNotations.
+Require Import V.Restart.Model V.Sched.Model V.Sched.Proofs.
+
+(* Whenever a component's task is launched for the first time, every component it consumes from has
+   been observed finished and is in a final state — except a same-stage producer of a repeating
+   consumer, which has itself been launched — and no producer is failed, and for a non-aggregating
+   consumer none is shut down. *)
+Theorem C01_launch_guard : forall W outcome evs s ev s' c,
+  run W true outcome state0 evs = Some s -> step W true outcome s ev = Some s' ->
+  runs (dy s c) = 0 -> 0 < runs (dy s' c) ->
+  (forall p, In p (preds (cmp W c)) ->
+     ((In p (done s) /\ is_fin (pstate s p) = true) \/
+      (is_subject W c p = true /\ 0 < runs (dy s p) /\ finish_called (dy s p) = false)) /\
+     is_failed (pstate s p) = false /\
+     (is_aggregate (cmp W c) = false -> is_shutdown (pstate s p) = false)).
+Proof.
+  intros W outcome evs s ev s' c Hr Hs H0 H1.
+  destruct (run_ok W outcome evs state0 s Inv_state0 Hr) as [I _].
+  destruct (step_ok W outcome s ev s' I Hs) as [_ [_ G]]. destruct (G c H0 H1) as [G1 G2].
+  intros p Hp. split; [exact (G1 p Hp)|split].
+  - destruct (is_failed (pstate s p)) eqn:E; [|reflexivity].
+    rewrite (shutdown_rule_failed W s c p Hp E) in G2. discriminate.
+  - intros Ha. destruct (is_shutdown (pstate s p)) eqn:E; [|reflexivity].
+    rewrite (shutdown_rule_shutdown W s c p Hp Ha E) in G2. discriminate.
+Qed.
+Print Assumptions C01_launch_guard.
+
+(* A component recorded as done is in a final state. *)
+Theorem C01_done_is_final : forall W outcome evs s c,
+  run W true outcome state0 evs = Some s -> In c (done s) -> is_fin (pstate s c) = true.
+Proof.
+  intros W outcome evs s c Hr Hc. destruct (run_ok W outcome evs state0 s Inv_state0 Hr) as [[_ [I2 _]] _]. exact (I2 c Hc).
+Qed.
+Print Assumptions C01_done_is_final.
+
+(* A final state never changes along any continuation. *)
+Theorem C01_final_stable : forall W outcome evs evs' s s' c f,
+  run W true outcome state0 evs = Some s -> run W true outcome s evs' = Some s' ->
+  ctl (dy s c) = Some f -> ctl (dy s' c) = Some f.
+Proof.
+  intros W outcome evs evs' s s' c f Hr Hr' Hc.
+  destruct (run_ok W outcome evs state0 s Inv_state0 Hr) as [I _].
+  destruct (run_ok W outcome evs' s s' I Hr') as [_ X]. exact (x_ctl _ _ X c f Hc).
+Qed.
+Print Assumptions C01_final_stable.
+
+(* A component that consumes from a failed producer is never launched, nor is a non-aggregating
+   component that consumes from a shut-down one — in any continuation of any reachable state. *)
+Theorem C01_never_after_failed_producer : forall W outcome evs evs' s s' c p,
+  run W true outcome state0 evs = Some s -> run W true outcome s evs' = Some s' ->
+  In p (preds (cmp W c)) ->
+  (ctl (dy s p) = Some Failed \/ (is_aggregate (cmp W c) = false /\ ctl (dy s p) = Some Shutdown)) ->
+  runs (dy s c) = 0 -> runs (dy s' c) = 0.
+Proof.
+  intros W outcome evs evs' s s' c p Hr Hr' Hp Hb H0.
+  destruct (run_ok W outcome evs state0 s Inv_state0 Hr) as [I _].
+  exact (blocked_forever W outcome evs' s s' c p I Hr' Hp Hb H0).
+Qed.
+Print Assumptions C01_never_after_failed_producer.
+
+(* non-vacuity: chain P -> S -> O (O repeating, same stage), P succeeds: after the listed 9 events O has
+   been launched once, after S, and P is recorded done *)
+Definition exW : list comp :=
+  [ {| stage := 0; is_repeat := false; is_aggregate := false; is_replica := false; preds := []; cshutdown_on := [KnownIssue]; restart_on := []; max_r := 0 |};
+    {| stage := 0; is_repeat := false; is_aggregate := false; is_replica := false; preds := [0]; cshutdown_on := []; restart_on := []; max_r := 0 |};
+    {| stage := 0; is_repeat := true; is_aggregate := false; is_replica := false; preds := [1]; cshutdown_on := []; restart_on := []; max_r := 0 |} ].
+Example C01_nonvacuous :
+  match run exW true (fun _ _ => Success) state0 [Start; Tick; Exit 0; PM 0; Tick; Fin 0; Tick; Tick; Exit 1] with
+  | Some s => done s = [0] /\ runs (dy s 1) = 1 /\ runs (dy s 2) = 1 /\ cstate (dy s 0) = CFin Finished
+  | None => False
+  end.
+Proof. vm_compute. repeat split. Qed.
